@@ -40,9 +40,9 @@ theorem execution_past (ops : PriceOps P) (m m' : Market P) (fs : List (Fill P))
 /-- every operation other than a clock step leaves the clock and the recorded past alone; a clock
 step advances the clock by one and appends the slot that was current -/
 theorem step_clock_past (ops : PriceOps P) (m : Market P) (o : Op P) :
-    (∀ f, o ≠ .tick f) →
+    (∀ f, o ≠ .tick f) → (∀ k f, o ≠ .jump k f) →
       (m.step ops o).1.past = m.past ∧ (m.step ops o).1.time = m.time := by
-  intro hnt
+  intro hnt hnj
   cases o with
   | add r => exact ⟨(addOrder_past ops m r).1, (addOrder_past ops m r).2.1⟩
   | cancel id =>
@@ -56,11 +56,17 @@ theorem step_clock_past (ops : PriceOps P) (m : Market P) (o : Op P) :
     · exact ⟨rfl, rfl⟩
     · have := execution_past ops m m' fs hc; exact ⟨this.1, this.2.1⟩
   | tick f => exact absurd rfl (hnt f)
+  | jump k f => exact absurd rfl (hnj k f)
   | setRunning b => exact ⟨rfl, rfl⟩
 
 theorem tick_clock_past (ops : PriceOps P) (m : Market P) (f : Option P) :
     (m.tick ops f).1.past = m.cur :: m.past ∧ (m.tick ops f).1.time = m.time + 1 := by
   simp [Market.tick]
+
+theorem setTime_clock_past (ops : PriceOps P) (m : Market P) (k : Nat) (f : Option P) :
+    (m.setTime ops k f).1.past = List.replicate (k - 1) (Slot.empty ops) ++ (m.cur :: m.past) ∧
+    (m.setTime ops k f).1.time = m.time + k := by
+  simp [Market.setTime]
 
 /-- a past slot read through the getter -/
 theorem slotAt_past (m : Market P) (t : Nat) (ht : t < m.time) : m.slotAt t = m.pastAt t := by
